@@ -2,6 +2,7 @@ package vc
 
 import (
 	"fmt"
+	"go/ast"
 	"go/constant"
 	"go/types"
 	"strings"
@@ -250,6 +251,9 @@ func (env *SpecEnv) eval(e Expr) (sval, error) {
 			return env.sv(f.load(env.state(), c.t, c.typ), c.typ), nil
 		}
 		if v, ok := env.pkgMember(env.pkg, x.Name); ok {
+			return v, nil
+		}
+		if v, ok := env.uncapturedOuter(x.Name); ok {
 			return v, nil
 		}
 		return sval{}, fmt.Errorf("unknown identifier %q", x.Name)
@@ -1447,4 +1451,56 @@ func (env *SpecEnv) emitAxiomsFor(name string) {
 		f.ctx.Fact(g)
 		f.eng.note("axiom used: " + ax.Name + ": " + ax.Text)
 	}
+}
+
+// uncapturedOuter: in the contract of a closure verified on its own, a name that denotes a parameter
+// or local variable of an enclosing function which the closure does not capture. The closure's
+// behaviour cannot depend on it, so it stands for an arbitrary value of its type: a clause that
+// mentions it must hold whatever that value is.
+func (env *SpecEnv) uncapturedOuter(name string) (sval, bool) {
+	f := env.f
+	if f == nil || f.top == nil || f.top.fn == nil || f.top.fn.Parent() == nil {
+		return sval{}, false
+	}
+	top := f.top
+	if v, ok := top.outerVars[name]; ok {
+		return v, true
+	}
+	for p := top.fn.Parent(); p != nil; p = p.Parent() {
+		var t types.Type
+		for _, prm := range p.Params {
+			if prm.Name() == name {
+				t = prm.Type()
+			}
+		}
+		for _, l := range p.Locals {
+			if l.Comment == name {
+				t = l.Type().Underlying().(*types.Pointer).Elem()
+			}
+		}
+		if t == nil {
+			// SSA registers: look for a DebugRef of that name
+			for _, b := range p.Blocks {
+				for _, in := range b.Instrs {
+					if d, ok := in.(*ssa.DebugRef); ok {
+						if id, ok := d.Expr.(*ast.Ident); ok && id.Name == name && !d.IsAddr {
+							t = d.X.Type()
+						}
+					}
+				}
+			}
+		}
+		if t != nil {
+			a := f.ctx.Fresh("outer_"+name, f.ctx.sortOf(t))
+			f.ctx.Fact(f.ctx.typeFacts(a, t, top.alloc0))
+			f.eng.note("a variable of the enclosing function that a separately verified closure does not capture stands for an arbitrary value in the closure's contract")
+			v := env.sv(a, t)
+			if top.outerVars == nil {
+				top.outerVars = map[string]sval{}
+			}
+			top.outerVars[name] = v
+			return v, true
+		}
+	}
+	return sval{}, false
 }
